@@ -563,77 +563,163 @@ theorem ascii_rune_head {s : Bytes} (hs : s ≠ []) (hc : (Utf8.decodeRune s).1 
     · have := (decodeRune_nonascii b t (by omega)).1
       omega
 
-/-- ★ `lex_emits_TokOK`: every token `readToken` delivers is the end of input, a newline, a comment
-    text (`//…` without newline) or a `TokOK` line token of the delivered kind. -/
-theorem lex_emits_LexOK (i i' : Input) (h : readToken i = .ok i') : LexOK i'.token.kind i'.token.text := by
+theorem skipSpaces_emits : ∀ (fuel : Nat) (i i' : Input), skipSpaces fuel i = .ok i' →
+    ∃ ws, (∀ b ∈ ws, isBlank b = true) ∧ Adv i i' ws := by
+  intro fuel
+  induction fuel with
+  | zero => intro i i' h; simp [skipSpaces] at h
+  | succ n ih =>
+    intro i i' h
+    unfold skipSpaces at h
+    split at h
+    · cases h; exact ⟨[], by simp, Adv.refl _⟩
+    · rename_i heof
+      simp only at h
+      split at h
+      · rename_i hc
+        have hne : i.remaining ≠ [] := (eof_false_iff i).1 (by simpa using heof)
+        obtain ⟨i1, hr1, hadv1, _⟩ := readRune_adv i hne
+        simp only [hr1, bind, Except.bind] at h
+        obtain ⟨ws, hws, hadv⟩ := ih i1 i' h
+        -- the rune read is an ASCII blank
+        rw [peekRune_eq hne] at hc
+        have hc' : (Utf8.decodeRune i.remaining).1 = 32 ∨ (Utf8.decodeRune i.remaining).1 = 9 ∨
+            (Utf8.decodeRune i.remaining).1 = 13 := by
+          simpa [or_assoc] using hc
+        have hlt : (Utf8.decodeRune i.remaining).1 < 0x80 := by
+          rcases hc' with h | h | h <;> rw [h] <;> decide
+        obtain ⟨b, t, hbt, hb, hw⟩ := ascii_rune_head hne hlt
+        have htake : i.remaining.take (Utf8.decodeRune i.remaining).2 = [b] := by rw [hw, hbt]; rfl
+        rw [htake] at hadv1
+        refine ⟨b :: ws, ?_, hadv1.trans hadv⟩
+        intro x hx
+        rcases List.mem_cons.1 hx with rfl | hx
+        · rw [← hb] at hc'
+          simp only [isBlank, Bool.or_eq_true, beq_iff_eq]
+          rcases hc' with h | h | h
+          · exact Or.inl (Or.inl (UInt8.toNat_inj.1 (by simpa using h)))
+          · exact Or.inl (Or.inr (UInt8.toNat_inj.1 (by simpa using h)))
+          · exact Or.inr (UInt8.toNat_inj.1 (by simpa using h))
+        · exact hws x hx
+      · cases h; exact ⟨[], by simp, Adv.refl _⟩
+
+theorem isIdent_not_space {r : Nat} (h : isIdent r = true) : UnicodePrint.isSpace r = false := by
+  unfold isIdent at h
+  split at h
+  · cases h
+  · simp only [Bool.and_eq_true, Bool.not_eq_true'] at h
+    exact h.1
+
+/-- What one `readToken` call delivers and consumes, relative to the state `i0` after the leading
+    blanks: the end of the input; a comment line; a newline; or a `TokOK` line token, whose first rune
+    (decoded in the source context) is not white space and lies inside the token. -/
+inductive Emit (i0 i : Input) : Prop
+  | eof (hk : i.token.kind = .eof) (ht : i.token.text = []) (hrem : i0.remaining = [])
+      (hc : i.consumedRev = i0.consumedRev) (hr : i.remaining = []) (hcm : i.commentsRev = i0.commentsRev) : Emit i0 i
+  | comment (hp : i0.peekPrefix [47, 47] = true) (hrem : i0.remaining = lineOf i0.remaining ++ i.remaining)
+      (hc : i.consumedRev = (lineOf i0.remaining).reverse ++ i0.consumedRev)
+      (hk : i.token.kind =
+        (if !(GoStrings.trimSpace (i0.consumedRev.takeWhile (· != 10)).reverse).isEmpty
+         then TokKind.eolComment else TokKind.comment))
+      (hcm : i.token.kind = .comment → i.commentsRev = i0.commentsRev)
+      (ht : CommentOK i.token.text) : Emit i0 i
+  | newline (hk : i.token.kind = .punct 10) (ht : i.token.text = [10]) (hrem : i0.remaining = 10 :: i.remaining)
+      (hc : i.consumedRev = 10 :: i0.consumedRev) (hcm : i.commentsRev = i0.commentsRev) : Emit i0 i
+  | tok (t : Bytes) (hk : TokOK i.token.kind t) (ht : i.token.text = t) (hrem : i0.remaining = t ++ i.remaining)
+      (hc : i.consumedRev = t.reverse ++ i0.consumedRev) (hcm : i.commentsRev = i0.commentsRev)
+      (hfirst : UnicodePrint.isSpace (Utf8.decodeRune i0.remaining).1 = false)
+      (hwidth : (Utf8.decodeRune i0.remaining).2 ≤ t.length) : Emit i0 i
+
+/-- ★ `readToken_emits`: every successful `readToken` call skips blanks and then delivers one of the
+    four `Emit` shapes. -/
+theorem readToken_emits (j i' : Input) (h : readToken j = .ok i') :
+    ∃ ws i0, (∀ b ∈ ws, isBlank b = true) ∧ Adv j i0 ws ∧ Emit i0 i' := by
   unfold readToken at h
-  cases h0 : skipSpaces (i.remaining.length + 1) i with
+  cases h0 : skipSpaces (j.remaining.length + 1) j with
   | error e => simp [h0, bind, Except.bind] at h
   | ok i0 =>
+    obtain ⟨ws, hws, hadv0⟩ := skipSpaces_emits _ _ _ h0
+    refine ⟨ws, i0, hws, hadv0, ?_⟩
     simp only [h0, bind, Except.bind] at h
     split at h
     · -- comment
       rename_i hc
       simp only [Bool.and_eq_true] at hc
-      obtain ⟨i'', hr, _, _, _, htext, hkind, _⟩ := readComment_char i0 hc.2
+      obtain ⟨i'', hr, hrem, hcons, _, htext, hkind, hcomm⟩ := readComment_char i0 hc.2
       rw [hr] at h
       have : i'' = i' := by cases h; rfl
       subst this
       obtain ⟨t, ht⟩ := peekPrefix_slashes hc.2
-      rw [ht] at htext
       have hok := commentOK_of_slashes t
-      rw [← htext] at hok
-      split at hkind
-      · rw [hkind]; exact .eolComment _ hok
-      · rw [hkind]; exact .comment _ hok
+      rw [← ht, ← htext] at hok
+      refine .comment hc.2 hrem hcons hkind ?_ hok
+      intro hk
+      rw [hkind] at hk
+      split at hk
+      · cases hk
+      · rename_i hs
+        simp only [hs, Bool.false_eq_true, if_false] at hcomm
+        exact hcomm
     · split at h
       · cases h
       · rename_i hnc1 hnc2
-        generalize hj : startToken i0 = j at h
-        have hjrem : j.remaining = i0.remaining := by rw [← hj]; rfl
-        have hjtok : j.tokRev = [] := by rw [← hj]; rfl
+        generalize hj : startToken i0 = j0 at h
+        have hjrem : j0.remaining = i0.remaining := by rw [← hj]; rfl
+        have hjcons : j0.consumedRev = i0.consumedRev := by rw [← hj]; rfl
+        have hjcomm : j0.commentsRev = i0.commentsRev := by rw [← hj]; rfl
+        have hjtok : j0.tokRev = [] := by rw [← hj]; rfl
         split at h
         · -- end of input
-          have : i' = endToken .eof j := by cases h; rfl
+          rename_i heof
+          have : i' = endToken .eof j0 := by cases h; rfl
           subst this
-          have : (endToken TokKind.eof j).token.text = [] := by
+          have hr : j0.remaining = [] := by
+            have : j0.eof = true := heof
+            unfold Input.eof at this
+            cases hh : j0.remaining with
+            | nil => rfl
+            | cons _ _ => rw [hh] at this; cases this
+          have ht : (endToken TokKind.eof j0).token.text = [] := by
             simp only [endToken, TokKind.isComment, Bool.false_eq_true, if_false, hjtok]; rfl
-          rw [this]
-          exact .eof
+          exact .eof rfl ht (by rw [← hjrem]; exact hr) hjcons hr hjcomm
         · rename_i heof
-          have hne : j.remaining ≠ [] := (eof_false_iff _).1 (by simpa using heof)
+          have hne : j0.remaining ≠ [] := (eof_false_iff _).1 (by simpa using heof)
           have hpk := peekRune_eq hne
-          have htextOf : ∀ (i2 : Input) (k : TokKind) (a : Bytes), k.isComment = false → Adv j i2 a →
-              (endToken k i2).token.text = a := by
+          have hfin : ∀ (i2 : Input) (k : TokKind) (a : Bytes), k.isComment = false → Adv j0 i2 a →
+              (endToken k i2).token.text = a ∧ i0.remaining = a ++ (endToken k i2).remaining ∧
+              (endToken k i2).consumedRev = a.reverse ++ i0.consumedRev ∧
+              (endToken k i2).commentsRev = i0.commentsRev := by
             intro i2 k a hk hadv
+            refine ⟨?_, by rw [← hjrem]; exact hadv.rem, by rw [← hjcons]; exact hadv.cons,
+              by rw [← hjcomm]; exact hadv.comments⟩
             have := hadv.tok
             simp only [endToken, hk, Bool.false_eq_true, if_false, this, hjtok]
             simp
           split at h
           · -- punctuation
             rename_i hp
-            obtain ⟨i1, hr1, hadv1, _⟩ := readRune_adv j hne
+            obtain ⟨i1, hr1, hadv1, _⟩ := readRune_adv j0 hne
             rw [hpk] at h hp
             simp only [hr1] at h
-            have hi' : i' = endToken (.punct (UInt8.ofNat (Utf8.decodeRune j.remaining).1)) i1 := by
+            have hi' : i' = endToken (.punct (UInt8.ofNat (Utf8.decodeRune j0.remaining).1)) i1 := by
               cases h; rfl
-            have hcs : (Utf8.decodeRune j.remaining).1 = 10 ∨ (Utf8.decodeRune j.remaining).1 = 40 ∨
-                (Utf8.decodeRune j.remaining).1 = 41 ∨ (Utf8.decodeRune j.remaining).1 = 91 ∨
-                (Utf8.decodeRune j.remaining).1 = 93 ∨ (Utf8.decodeRune j.remaining).1 = 123 ∨
-                (Utf8.decodeRune j.remaining).1 = 125 ∨ (Utf8.decodeRune j.remaining).1 = 44 := by
+            have hcs : (Utf8.decodeRune j0.remaining).1 = 10 ∨ (Utf8.decodeRune j0.remaining).1 = 40 ∨
+                (Utf8.decodeRune j0.remaining).1 = 41 ∨ (Utf8.decodeRune j0.remaining).1 = 91 ∨
+                (Utf8.decodeRune j0.remaining).1 = 93 ∨ (Utf8.decodeRune j0.remaining).1 = 123 ∨
+                (Utf8.decodeRune j0.remaining).1 = 125 ∨ (Utf8.decodeRune j0.remaining).1 = 44 := by
               simpa [isPunct, punctRunes] using hp
-            have hlt : (Utf8.decodeRune j.remaining).1 < 0x80 := by
+            have hlt : (Utf8.decodeRune j0.remaining).1 < 0x80 := by
               rcases hcs with h | h | h | h | h | h | h | h <;> rw [h] <;> decide
             obtain ⟨b, t, hbt, hb, hw⟩ := ascii_rune_head hne hlt
-            have htake : j.remaining.take (Utf8.decodeRune j.remaining).2 = [b] := by
+            have htake : j0.remaining.take (Utf8.decodeRune j0.remaining).2 = [b] := by
               rw [hw, hbt]; rfl
             rw [htake] at hadv1
-            have htext : i'.token.text = [b] := by rw [hi']; exact htextOf _ _ _ rfl hadv1
+            obtain ⟨htext, hrem, hcons, hcomm⟩ := hfin i1 (.punct (UInt8.ofNat (Utf8.decodeRune j0.remaining).1)) [b] rfl hadv1
+            rw [← hi'] at htext hrem hcons hcomm
             have hkind : i'.token.kind = .punct b := by
               rw [hi']
               show TokKind.punct _ = _
               rw [← hb]; simp
-            rw [htext, hkind]
             rw [← hb] at hcs
             have hb' : b = 10 ∨ b = 40 ∨ b = 41 ∨ b = 91 ∨ b = 93 ∨ b = 123 ∨ b = 125 ∨ b = 44 := by
               rcases hcs with h | h | h | h | h | h | h | h
@@ -645,68 +731,77 @@ theorem lex_emits_LexOK (i i' : Input) (h : readToken i = .ok i') : LexOK i'.tok
               · exact Or.inr (Or.inr (Or.inr (Or.inr (Or.inr (Or.inl (UInt8.toNat_inj.1 (by simpa using h)))))))
               · exact Or.inr (Or.inr (Or.inr (Or.inr (Or.inr (Or.inr (Or.inl (UInt8.toNat_inj.1 (by simpa using h))))))))
               · exact Or.inr (Or.inr (Or.inr (Or.inr (Or.inr (Or.inr (Or.inr (UInt8.toNat_inj.1 (by simpa using h))))))))
-            rcases hb' with h | h
-            · subst h; exact .newline
-            · exact .tok _ _ (.punct b (by simpa [punctBytes] using h))
+            rcases hb' with h10 | hb'
+            · subst h10
+              exact .newline hkind htext (by simpa using hrem) (by simpa using hcons) hcomm
+            · have hpb : b ∈ punctBytes := by simpa [punctBytes] using hb'
+              refine .tok [b] (by rw [hkind]; exact .punct b hpb) htext hrem hcons hcomm ?_ ?_
+              · rw [← hjrem, ← hb]
+                rcases hb' with h | h | h | h | h | h | h <;> subst h <;> decide
+              · rw [← hjrem, hw]; simp
           · rename_i hnp
             split at h
             · -- quoted string
               rename_i hq
-              obtain ⟨i1, hr1, hadv1, _⟩ := readRune_adv j hne
+              obtain ⟨i1, hr1, hadv1, _⟩ := readRune_adv j0 hne
               rw [hpk] at h hq
               simp only [hr1] at h
-              cases h2 : readString (Utf8.decodeRune j.remaining).1 (i1.remaining.length + 1) i1 with
+              cases h2 : readString (Utf8.decodeRune j0.remaining).1 (i1.remaining.length + 1) i1 with
               | error e => simp [h2] at h
               | ok i2 =>
                 simp only [h2] at h
                 have hi' : i' = endToken .string i2 := by cases h; rfl
                 obtain ⟨a, hadv2, hbody⟩ := readString_emits _ _ _ _ h2
-                have hcs : (Utf8.decodeRune j.remaining).1 = 34 ∨ (Utf8.decodeRune j.remaining).1 = 96 := by
+                have hcs : (Utf8.decodeRune j0.remaining).1 = 34 ∨ (Utf8.decodeRune j0.remaining).1 = 96 := by
                   simpa [quoteRunes] using hq
-                have hlt : (Utf8.decodeRune j.remaining).1 < 0x80 := by
+                have hlt : (Utf8.decodeRune j0.remaining).1 < 0x80 := by
                   rcases hcs with h | h <;> rw [h] <;> decide
                 obtain ⟨b, t, hbt, hb, hw⟩ := ascii_rune_head hne hlt
-                have htake : j.remaining.take (Utf8.decodeRune j.remaining).2 = [b] := by
+                have htake : j0.remaining.take (Utf8.decodeRune j0.remaining).2 = [b] := by
                   rw [hw, hbt]; rfl
                 rw [htake] at hadv1
                 have hadv := hadv1.trans hadv2
-                have htext : i'.token.text = b :: a := by rw [hi']; exact htextOf _ _ _ rfl hadv
+                obtain ⟨htext, hrem, hcons, hcomm⟩ := hfin i2 .string ([b] ++ a) rfl hadv
+                rw [← hi'] at htext hrem hcons hcomm
                 have hkind : i'.token.kind = .string := by rw [hi']; rfl
-                rw [htext, hkind]
                 rw [← hb] at hcs hbody
-                refine .tok _ _ (.string b a ?_ hbody)
-                rcases hcs with h | h
-                · exact Or.inl (UInt8.toNat_inj.1 (by simpa using h))
-                · exact Or.inr (UInt8.toNat_inj.1 (by simpa using h))
+                have hbq : b = 34 ∨ b = 96 := by
+                  rcases hcs with h | h
+                  · exact Or.inl (UInt8.toNat_inj.1 (by simpa using h))
+                  · exact Or.inr (UInt8.toNat_inj.1 (by simpa using h))
+                refine .tok (b :: a) (by rw [hkind]; exact .string b a hbq hbody) htext hrem hcons hcomm ?_ ?_
+                · rw [← hjrem, ← hb]
+                  rcases hbq with h | h <;> subst h <;> decide
+                · rw [← hjrem, hw]; simp
             · rename_i hnq
               split at h
               · cases h
               · rename_i hid
-                cases h2 : readIdent (j.remaining.length + 1) j with
+                cases h2 : readIdent (j0.remaining.length + 1) j0 with
                 | error e => simp [h2] at h
                 | ok i2 =>
                   simp only [h2] at h
                   have hi' : i' = endToken .ident i2 := by cases h; rfl
                   obtain ⟨a, hadv2, hbody, hdec⟩ := readIdent_emits _ _ _ h2
-                  have hid' : isIdent j.peekRune = true := by simpa using hid
+                  have hid' : isIdent j0.peekRune = true := by simpa using hid
                   have hane : a ≠ [] := by
                     intro ha
                     subst ha
                     -- no progress is impossible: the first rune is an identifier rune and no comment starts here
                     have he0 : i0.eof = false := (eof_false_iff i0).2 (by rw [← hjrem]; exact hne)
-                    rcases readIdent_spec (j.remaining.length + 1) j (by omega) with
+                    rcases readIdent_spec (j0.remaining.length + 1) j0 (by omega) with
                       ⟨i3, h3, _, _, _, hprog⟩ | ⟨e, h3, _⟩
                     · rw [h2] at h3
                       have : i2 = i3 := by cases h3; rfl
                       subst this
-                      have hp1 : j.peekPrefix [47, 47] = false := by
-                        have : j.peekPrefix [47, 47] = i0.peekPrefix [47, 47] := by rw [← hj]; rfl
+                      have hp1 : j0.peekPrefix [47, 47] = false := by
+                        have : j0.peekPrefix [47, 47] = i0.peekPrefix [47, 47] := by rw [← hj]; rfl
                         rw [this]
                         cases hh : i0.peekPrefix [47, 47] with
                         | false => rfl
                         | true => exact absurd (by simp [he0, hh]) hnc1
-                      have hp2 : j.peekPrefix [47, 42] = false := by
-                        have : j.peekPrefix [47, 42] = i0.peekPrefix [47, 42] := by rw [← hj]; rfl
+                      have hp2 : j0.peekPrefix [47, 42] = false := by
+                        have : j0.peekPrefix [47, 42] = i0.peekPrefix [47, 42] := by rw [← hj]; rfl
                         rw [this]
                         cases hh : i0.peekPrefix [47, 42] with
                         | false => rfl
@@ -717,11 +812,30 @@ theorem lex_emits_LexOK (i i' : Input) (h : readToken i = .ok i') : LexOK i'.tok
                       rw [hr] at this
                       omega
                     · rw [h2] at h3; cases h3
-                  have htext : i'.token.text = a := by rw [hi']; exact htextOf _ _ _ rfl hadv2
+                  obtain ⟨htext, hrem, hcons, hcomm⟩ := hfin i2 .ident a rfl hadv2
+                  rw [← hi'] at htext hrem hcons hcomm
                   have hkind : i'.token.kind = .ident := by rw [hi']; rfl
-                  rw [htext, hkind]
-                  refine .tok _ _ (.ident a hane hbody ?_)
-                  rw [hdec hane, ← hpk]
-                  simpa using hnq
+                  have hnq' : quoteRunes.contains (Utf8.decodeRune a).1 = false := by
+                    rw [hdec hane, ← hpk]
+                    simpa using hnq
+                  refine .tok a (by rw [hkind]; exact .ident a hane hbody hnq') htext hrem hcons hcomm ?_ ?_
+                  · rw [← hjrem, ← hpk]
+                    exact isIdent_not_space hid'
+                  · rw [← hjrem, ← hdec hane]
+                    exact (decodeRune_width a hane).2
+
+/-- ★ `lex_emits_TokOK`: every token `readToken` delivers is the end of input, a newline, a comment
+    text (`//…` without newline) or a `TokOK` line token of the delivered kind. -/
+theorem lex_emits_LexOK (i i' : Input) (h : readToken i = .ok i') : LexOK i'.token.kind i'.token.text := by
+  obtain ⟨ws, i0, _, _, hem⟩ := readToken_emits i i' h
+  cases hem with
+  | eof hk ht _ _ _ _ => rw [hk, ht]; exact .eof
+  | comment _ _ _ hk _ ht =>
+    rw [hk]
+    split
+    · exact .eolComment _ ht
+    · exact .comment _ ht
+  | newline hk ht _ _ _ => rw [hk, ht]; exact .newline
+  | tok t hk ht _ _ _ _ _ => rw [ht]; exact .tok _ _ hk
 
 end ModVerif.Proofs.ModfileFmtLex
